@@ -127,6 +127,8 @@ func (c02) Generate(r *rand.Rand, t string) []*Case {
 	out = append(out, c02SettingsStream(r, t)...)
 	out = append(out, c02TinyStream(r, t)...)
 	out = append(out, c02RandomTinyStream(r, t)...)
+	// round 7 (c02_directive.go)
+	out = append(out, c02DirectiveStream(r, t)...)
 	return out
 }
 
@@ -165,6 +167,17 @@ func (c02) Oracle(c *Case, got []hist.Obs) string {
 			case "fmterr":
 				if o.Writes != 0 {
 					return "format error but the writer was called"
+				}
+				if c.Meta["quote"] == true && op.Kind == "render" {
+					// (streams that ask for it) the error carries the unformatted source: what an
+					// identically built File renders with NoFormat, whichever line the formatter blamed
+					tw := twinRaw(h[:i+1])
+					if len(tw) == 0 || tw[len(tw)-1].Kind != "write" {
+						return fmt.Sprintf("format error, but an identically built File with NoFormat did not render: %v", tw)
+					}
+					if tw[len(tw)-1].Out != o.Out {
+						return fmt.Sprintf("the format error does not quote the unformatted source:\n got  %q\n want %q", o.Out, tw[len(tw)-1].Out)
+					}
 				}
 			case "write":
 				if op.Kind == "render" && noformatBefore(h, i) {
